@@ -3707,6 +3707,13 @@ class MaybeAlignPartitions(Expr):
             except TypeError:
                 # either unknown divisions or int-str mix
                 return None, None
+        dfs = self.args
+        if len(dfs) == 1 or all(
+            dfs[0].divisions == df.divisions and df.known_divisions for df in dfs
+        ):
+            # Nothing is repartitioned (see _lower): the partitions are those of
+            # the operands, a repeated last division included
+            return dfs[0].divisions
         return calc_divisions_for_align(*self.args)
 
     def _simplify_up(self, parent, dependents):
